@@ -403,6 +403,10 @@ def gen_chain(g, filters=0.0, roots=0.0, doc=None, small=False):
                                 return oc == 1
                             a = got[0][1]
                             return [a == fv, a != fv, a < fv, a <= fv, a > fv, a >= fv][oc]
+                        if r.random() < 0.3:
+                            # the literal on the left (Coq's BCL): `lit OP @inner` is `@inner OP' lit` with the ordering mirrored
+                            mo = [0, 1, 4, 5, 2, 3][oc]
+                            return lit + ['==', '!=', '<', '<=', '>', '>='][mo] + '@' + it, ('cl', isp, mo, [ord(ch) for ch in lit]), t
                         return '@' + it + ['==', '!=', '<', '<=', '>', '>='][oc] + lit, ('c', isp, oc, [ord(ch) for ch in lit]), t
                     if k0 < 0.6:
                         # == / != against a string, boolean or null literal (plain body: no quote of its kind, no backslash)
